@@ -20,11 +20,12 @@
 (***************************************************************************)
 EXTENDS Integers, Sequences, FiniteSets, TLC, Json
 
-CONSTANTS MaxOps   \* bound on the number of operators in a tree
+CONSTANTS MaxOps,     \* bound on the number of operators in a tree
+          SmallAtoms  \* TRUE: three atoms only (deeper trees stay enumerable)
 
 \* 'a', 'b', a bracket set ['a'-'c'], any character, a string "ab", end of input `$`,
 \* a built-in `$$ascii_digit` (two `$` tokens and an identifier in the real syntax)
-Atoms == {"a", "b", "K", "_", "S", "D", "B"}
+Atoms == IF SmallAtoms THEN {"a", "K", "_"} ELSE {"a", "b", "K", "_", "S", "D", "B"}
 ClassAtoms == {"a", "b", "K", "_", "B"}
 
 Atom(x) == [k |-> "atom", x |-> x]
